@@ -105,6 +105,29 @@ def fam_border(rng, n):
     return pts
 
 
+def fam_axisplane(rng, n):
+    """one coordinate constant and non-zero: every point sits on a cell border of every level"""
+    ax = rng.randrange(3)
+    c = rng.choice([9, 7, -3, 1, 100, 13])
+    s = rng.choice([5, 12, 40])
+    out = []
+    for _ in range(n):
+        p = [_ri(rng, -s, s) for _ in range(3)]
+        p[ax] = c
+        out.append(p)
+    return out
+
+
+def fam_dyadic(rng, n):
+    """corners of a box plus points at dyadic fractions of it (centre, quarter points)"""
+    lo = [_ri(rng, -30, 30) for _ in range(3)]
+    ext = [rng.choice([8, 16, 24, 64, 40]) for _ in range(3)]
+    pts = [list(lo), [lo[i] + ext[i] for i in range(3)], [lo[i] + ext[i] // 2 for i in range(3)]]
+    while len(pts) < n:
+        pts.append([lo[i] + ext[i] * rng.choice([0, 1, 2, 3, 4, 5, 6, 7, 8]) // 8 for i in range(3)])
+    return pts[:max(n, 2)]
+
+
 def fam_same(rng, n):
     p = [_ri(rng, -5, 5) for _ in range(3)]
     return [list(p) for _ in range(n)]
@@ -114,9 +137,10 @@ FAMILIES = {
     'random': fam_random, 'cluster': fam_cluster, 'collinear': fam_collinear,
     'coplanar': fam_coplanar, 'lattice': fam_lattice, 'dups': fam_dups,
     'pythag': fam_pythag, 'border': fam_border, 'same': fam_same,
+    'axisplane': fam_axisplane, 'dyadic': fam_dyadic,
 }
-FAM_ORDER = ['border', 'pythag', 'lattice', 'cluster', 'collinear', 'coplanar', 'dups', 'random',
-             'border', 'same', 'pythag', 'lattice']
+FAM_ORDER = ['border', 'pythag', 'axisplane', 'lattice', 'dyadic', 'cluster', 'collinear', 'coplanar',
+             'dups', 'random', 'border', 'same', 'axisplane', 'pythag', 'dyadic', 'lattice']
 
 
 def d2(p, q):
@@ -130,6 +154,8 @@ def bound_choices(rng, A, B):
     r = rng.random()
     if r < 0.3:
         return None
+    if r < 0.4:
+        return 0.0                                              # hits the distance 0 exactly
     if r < 0.65 and squares:
         return float(math.isqrt(rng.choice(squares)))          # hits a distance exactly
     if r < 0.8 and ds:
